@@ -12,7 +12,9 @@ KNOWN_FINDINGS = os.path.join(runner.ROOT, "known_findings.json")
 # property -> list of workloads: (profile, mode, quick runs, thorough runs, opts)
 PROPS = {
     "C01": {
-        "workloads": [("conn", "c01", 9000, 150000, None)],
+        # a design built through a reconnection history or with adversarial names and then
+        # exported with the wrong connectivity is a C01 violation as well
+        "workloads": [("conn", "c01", 7000, 120000, None), ("conn", "c04", 2000, 30000, None, ("C04",)), ("conn", "c05", 2000, 30000, None, ("C05",))],
         "rule": (
             "one case = a generated valid design program (model-guided generator, swarm configuration per run) "
             "executed under a drawn SimSet policy and, in half the runs, after a drawn history prefix; "
@@ -211,7 +213,8 @@ def selftest(prop, workloads, n=32, verif_seed=0):
     """Determinism of the harness: every seed executed twice (different workers) must give
     the identical digest.  Returns (ok, message)."""
     jobs = []
-    for pname, mode, _q, _t, opts in workloads:
+    for wl in workloads:
+        pname, mode, opts = wl[0], wl[1], wl[4]
         for i in range(n):
             jobs.append((pname, mode, hash64(verif_seed, "selftest", prop, pname, mode, i) % (1 << 48), opts))
     a = procs.run_pool(_selftest_job, jobs, workers=16)
@@ -247,10 +250,12 @@ def run_check(prop, tier, verif_seed, runs_override=None):
     total = None
     first_violation = None
     batches = []
-    for pname, mode, nq, nt, opts in cfg["workloads"]:
+    for wl in cfg["workloads"]:
+        pname, mode, nq, nt, opts = wl[:5]
+        accept = wl[5] if len(wl) > 5 else ()
         n = runs_override or (nq if tier == "quick" else nt)
         cap = 75 if tier == "quick" else 900
-        batch = driver.batch_run(prop, pname, mode, n, tier, verif_seed, opts=opts, wall_cap=cap)
+        batch = driver.batch_run(prop, pname, mode, n, tier, verif_seed, opts=opts, wall_cap=cap, accept=accept)
         batches.append((pname, mode, opts, batch))
         print(
             f"[{prop}] {pname}/{mode}: {batch.runs} runs, {len(batch.sigs)} distinct non-trivial, "
